@@ -296,6 +296,12 @@ async def process_resource_causes(
              cause=changing_cause,
          )))
 
+    # A removal of the finalizer carried over from the previous cycle (postponed due to a conflict) can
+    # be outdated by now, e.g. if the object matches the handlers again: do not re-apply it blindly.
+    if deletion_must_be_blocked and not deletion_is_ongoing:
+        patch.fns[:] = [fn for fn in patch.fns if not (
+            isinstance(fn, functools.partial) and fn.func is finalizers.allow_deletion)]
+
     if deletion_must_be_blocked and not deletion_is_blocked and not deletion_is_ongoing:
         local_logger.debug("Adding the finalizer, thus preventing the actual deletion.")
         patch.fns.append(functools.partial(finalizers.block_deletion, finalizer=finalizer))
